@@ -147,7 +147,7 @@ structure Req where
   deriving Repr
 
 inductive Err where
-  | noUtxos | notEnough | outputsGreater | multiChange | notBalanced | feeLow | feeHigh | badRandom
+  | noUtxos | notEnough | outputsGreater | multiChange | notBalanced | feeLow | feeHigh | badRandom | duplicateInput
   deriving DecidableEq, Repr
 
 structure Created where
@@ -195,7 +195,7 @@ def stageInputs (r : Req) : Except Err (List Utxo) :=
     else
       let sel := selectInputs cands (amountOut r + (stageEstimate r).1) r.net.dust maxU
       if sel.isEmpty then .error Err.notEnough else .ok sel
-  | .given l => .ok l
+  | .given l => if decide (l.map (·.id)).Nodup then .ok l else .error Err.duplicateInput
 
 structure FeeState where
   fee : Int
